@@ -204,7 +204,7 @@ def _table_case(cells, ncols, header, style_i, width, indent, aligns, ansi=False
         t.set_header_row(["H%d" % c for c in range(ncols)])
     for r in rows:
         t.add_row(list(r))
-    snapshot = ([list(r) for r in t._rows], list(t._header_row))
+    snapshot = ([list(r) for r in getattr(t, "_rows", [])], list(getattr(t, "_header_row", [])))      # (where the table keeps its cells; a second rendering below observes the same through the public API)
     if ansi:
         from clikit.formatter import AnsiFormatter
         io = BufferedIO(formatter=AnsiFormatter(forced=True))       # decorated output: the same rectangle once the escape sequences are taken out
@@ -228,7 +228,7 @@ def _table_case(cells, ncols, header, style_i, width, indent, aligns, ansi=False
         except ValueError as e:
             return "invalid width" in str(e)
         out_kf = SGR_.sub("", io.fetch_output())
-        return all(len(l) <= width for l in out_kf.split("\n")) and ([list(r) for r in t._rows], list(t._header_row)) == snapshot
+        return all(len(l) <= width for l in out_kf.split("\n")) and ([list(r) for r in getattr(t, "_rows", [])], list(getattr(t, "_header_row", []))) == snapshot
     try:
         t.render(io, indent)
     except ValueError as e:
@@ -252,8 +252,13 @@ def _table_case(cells, ncols, header, style_i, width, indent, aligns, ansi=False
                 return True
             return False
         raise
-    if ([list(r) for r in t._rows], list(t._header_row)) != snapshot:
+    if ([list(r) for r in getattr(t, "_rows", [])], list(getattr(t, "_header_row", []))) != snapshot:
         return False                                    # rendering does not modify the table
+    io_twice = BufferedIO() if not ansi else io.__class__(formatter=io.output.formatter)
+    io_twice.set_terminal_dimensions(Rectangle(width, 20))
+    t.render(io_twice, indent)
+    if io_twice.fetch_output() != io.fetch_output():
+        return False                                    # ... observed through the public API: a second rendering is identical
     if header:
         # the table can be changed between two renderings: the second one shows the table as it is then
         t.set_header_row(["N%d" % c for c in range(ncols)])
